@@ -809,6 +809,13 @@ def explore_mujoco(ctx: Ctx):
             cs = cases_for(name, opts, keys, depth, xml)
             counts[f"{name}{_opts_key(opts) if opts else ''}"] = len(cs)
             cases += cs
+        if not thorough:
+            # quick tier: every documented non-default option is still compared at the reset layer (observation layout /
+            # size against gymnasium built with the same option) - one key, no stepping, so it stays cheap
+            for opts in configs_for(name, True)[1:]:
+                cs = [c for c in cases_for(name, opts, keys[:1], 0, xml) if c["layer"] == "reset"]
+                counts[f"{name}{_opts_key(opts)}(reset only)"] = len(cs)
+                cases += cs
     gk = (lambda c: c["env"] + str(_opts_key(c.get("opts")))) if thorough else (lambda c: c["env"])
     ctx.run_parallel("mujoco_layers", cases, workers=8, group_key=gk, threads=2)
     for c in cases:
